@@ -8,6 +8,7 @@
 mod bprops;
 mod c09;
 mod c15;
+mod c17x;
 mod c18;
 mod cargo;
 mod common;
